@@ -20,10 +20,10 @@ DEMO_FAIL=$(awk "/Running tests\/$DEMONAME.rs/,/test result:/" $OUT/with_change.
 DEMO_PASS_W=$(awk "/Running tests\/$DEMONAME.rs/,/test result:/" $OUT/with_change.log | grep -E "^test result:" | awk '{print $4}')
 OTHER_FAIL=$(grep -E "^test result:" $OUT/with_change.log | awk '{s+=$6} END{print s}')
 # (2) without change
-git stash -q -- src
+git apply -R $OUT/patch.diff || { echo "cannot reverse patch"; exit 2; }
 cargo test --offline --test $DEMONAME > $OUT/without_change.log 2>&1
 RC2=$?
-git stash pop -q
+git apply $OUT/patch.diff
 DEMO_PASS_WO=$(grep -E "^test result:" $OUT/without_change.log | awk '{print $4}')
 DEMO_FAIL_WO=$(grep -E "^test result:" $OUT/without_change.log | awk '{print $6}')
 ORIG37=$((ORIG_PASS - ${DEMO_PASS_W:-0}))
